@@ -150,8 +150,10 @@ def run(ctx, rep):
                     continue
                 lhs = s['lhs']
                 if lhs['p'] and 'f' in lhs['p'][-1] and last_field(lhs) == 'dirty' and \
-                        field_owner(fn, lhs, 'dirty') in LATCH_OWNERS and s['rv']['k'] == 'use' and \
-                        const_operand_value(s['rv']['a']) == 0:
+                        field_owner(fn, lhs, 'dirty') in LATCH_OWNERS and not (
+                            s['rv']['k'] == 'use' and const_operand_value(s['rv']['a']) == 1):
+                    # any store that is not the constant `true` can lower the latch (`false`, or a computed value such as
+                    # `dirty = new != old`, which forgets a change recorded earlier)
                     clears.append((bi, s['span']))
                 # &mut self.dirty handed to a call (mem::take / mem::replace / swap)
                 if s['rv']['k'] == 'ref' and s['rv'].get('mut') and last_field(s['rv']['p']) == 'dirty' and \
